@@ -17,6 +17,7 @@ package header
 import (
 	"net"
 	"net/http"
+	"strings"
 
 	"github.com/google/martian/v3"
 )
@@ -48,7 +49,9 @@ func NewForwardedModifier() martian.RequestModifier {
 				xff = req.RemoteAddr
 			}
 
-			if v := req.Header.Get("X-Forwarded-For"); v != "" {
+			// X-Forwarded-For may be spread over several header lines which
+			// together form one list: keep all of them, not only the first.
+			if v := strings.Join(req.Header["X-Forwarded-For"], ", "); v != "" {
 				xff = v + ", " + xff
 			}
 
